@@ -251,6 +251,18 @@ def edge_programs(g, rng, tier):
             progs.append(([push(), push(), P('UPDATE', I(n))], None))
         for n in (0, 1, 3, 4):
             progs.append(([push(), P('UNIT'), P('PAIR', I(n))], None))
+    # ill-formed set / map literals (unsorted, duplicate keys): rejected by PUSH on the real side, not well-typed on the Lean side
+    S = lambda x: {'string': x}
+    for ty, lit in [(P('set', P('int')), [I(2), I(1)]), (P('set', P('int')), [I(1), I(1)]), (P('set', P('nat')), [I(0), I(5), I(3)]),
+                    (P('set', P('string')), [S('b'), S('a')]), (P('set', P('string')), [S('a'), S('a')]), (P('set', P('bytes')), [{'bytes': '01'}, {'bytes': '00ff'}]),
+                    (P('set', P('bool')), [P('True'), P('False')]), (P('set', P('mutez')), [I(7), I(7)]),
+                    (P('map', P('int'), P('unit')), [P('Elt', I(2), P('Unit')), P('Elt', I(1), P('Unit'))]),
+                    (P('map', P('string'), P('nat')), [P('Elt', S('a'), I(1)), P('Elt', S('a'), I(2))]),
+                    (P('map', P('nat'), P('nat')), [P('Elt', I(1), I(1)), P('Elt', I(3), I(2)), P('Elt', I(2), I(2))]),
+                    (P('list', P('set', P('int'))), [[I(1), I(2)], [I(2), I(1)]]),
+                    (P('pair', P('unit'), P('set', P('timestamp'))), P('Pair', P('Unit'), [I(5), I(-5)]))]:
+        progs.append(([P('PUSH', ty, lit)], None))
+        progs.append(([P('UNIT'), P('PUSH', ty, lit), P('DROP')], None))
     for n in (1, 2, 3):
         progs.append(([P('UNIT'), P('GET', I(n))], None))
         progs.append(([P('UNIT'), P('UNIT'), P('UPDATE', I(n))], None))
